@@ -108,7 +108,7 @@ func (r *Respawn) Decode(c *proto.PacketContext, rd io.Reader) (err error) {
 	}
 	r.Gamemode = int16(util.PReadByteVal(rd))
 	if c.Protocol.GreaterEqual(version.Minecraft_1_16) {
-		r.PreviousGamemode = int16(util.PReadByteVal(rd))
+		r.PreviousGamemode = int16(int8(util.PReadByteVal(rd))) // signed byte, -1 means none
 		debug := pr.Ok()
 		flat := pr.Ok()
 		r.DimensionInfo = &DimensionInfo{
